@@ -102,7 +102,20 @@ class C22(EngineACheck):
                 use_edited = bool(ch.choice(2, "recover-edited")) and fresh_edited is not None
                 if use_edited:
                     sess.reload(edited)
-                r2, _ = histsim.run_with_faults(rec_seed, edited if use_edited else prog, db, sess)
+                rerecorded: set = set()
+
+                def watch_record_value(w, rec, sched, seen=rerecorded):
+                    orig = sched.backend.record_value
+
+                    def record_value(*a, **kw):
+                        h = orig(*a, **kw)
+                        seen.add(h)
+                        return h
+
+                    sched.backend.record_value = record_value
+
+                r2, _ = histsim.run_with_faults(rec_seed, edited if use_edited else prog, db, sess,
+                                                extra_setup=watch_record_value)
                 if use_edited:
                     sess.reload(prog)
                 out.probe("recoveries_checked")
@@ -133,8 +146,11 @@ class C22(EngineACheck):
                                 {"k": k, "violations": lost[:5]})
                     continue
                 if not use_edited:
-                    # ... and every container value is linked to its subvalues again
-                    sv = histsim.subvalue_link_violations(db)
+                    # ... and every container value the recovery execution recorded (again) is
+                    # linked to its subvalues; a value that only the killed execution touched
+                    # (the recovery run may fail or be served from the cache before reaching
+                    # it) is unfinished business of a dead process, not a lost record
+                    sv = histsim.subvalue_link_violations(db, only=rerecorded)
                     if sv:
                         out.violate("C22.references_after_recovery", f"{sv[0][0]}@{site}",
                                     {"k": k, "violations": sv[:5]})
